@@ -28,6 +28,12 @@ var guardTables = map[string]map[string]GuardSpec{
 	},
 }
 
+func init() {
+	guardTables["stream.analyticFieldEngine"] = map[string]GuardSpec{
+		"noPart": {Lock: "mu"}, "partitions": {Lock: "mu"}, "lru": {Lock: "mu"}, "lastResults": {Lock: "mu"}, "wrapperParsed": {Lock: "mu"},
+	}
+}
+
 // functions exempt from the guard tables, one reason each
 var guardExempt = map[string]map[string]string{}
 
